@@ -30,3 +30,23 @@ Proof.
   intros s1 <-. cbn [fst]. rewrite <- Htr. exact H3.
 Qed.
 Print Assumptions multistage_run.
+
+(* C09 on the same runs: is_running is True after every request and is_exhausted becomes True exactly with EndReverse
+   (and stays True on the StopIterations after it). *)
+Theorem multistage_flags N ram disk tj c k : 1 <= N -> 0 <= ram -> 0 <= disk -> (2 <= N -> 1 <= ram + disk) ->
+  Multistage.construct N ram disk tj = Ok c ->
+  exists o0 m ls, run_case (PMulti N ram disk tj) (ms_params N ram disk) (repeat Next k) = Ok (o0, m, ls) /\
+     Forall (line_fl (flag_rule is_endrev)) ls.
+Proof.
+  intros HN Hram Hdisk Hunits Hc.
+  destruct (construct_labels N ram disk tj c HN Hram Hdisk Hc) as (HmaxN & Htr & Hlab & Htot & Hcr & Hcd).
+  unfold run_case, Sched.construct. rewrite Hc. cbn [bind].
+  pose proof (multistage_cfg_flags c (Z.min ram (N - 1)) (Z.min disk (N - 1))) as H.
+  rewrite HmaxN in H. specialize (H HN).
+  assert (HS : 2 <= N -> 1 <= total c) by (intros; rewrite Htot; lia).
+  specialize (H HS Hlab Hcr Hcd (count_st RAM (labels c)) (count_st DISK (labels c)) k).
+  unfold pms in H. rewrite HmaxN in H. unfold msched in H. unfold ms_params.
+  destruct (run_ops _ _ mon0 (repeat Next k)) as [[s' m'] ls].
+  eexists _, _, _. split; [reflexivity|]. exact H.
+Qed.
+Print Assumptions multistage_flags.
